@@ -619,6 +619,22 @@ func (g *G) MacroProgram() *m.Program {
 	if g.flip("unknown") {
 		main.Body = append(main.Body, m.NText("!"), m.NPrint(&m.E{K: "mcall", S: "nosuch", T: "alias", U: "mm"}))
 	}
+	// the calling template may extend a layout: its macro definitions and
+	// imports stay at top level, everything that renders moves into a block
+	if g.intn("extending", 0, 3) == 0 {
+		var top, inBlock []*m.N
+		for _, n := range main.Body {
+			switch n.K {
+			case "macro", "import", "from":
+				top = append(top, n)
+			default:
+				inBlock = append(inBlock, n)
+			}
+		}
+		main.Body = append([]*m.N{{K: "extends", X: m.EStr("layout")}}, top...)
+		main.Body = append(main.Body, &m.N{K: "block", S: "body", Body: inBlock})
+		p.Tpls = append(p.Tpls, &m.Tpl{Name: "layout", Body: []*m.N{m.NText("LAYOUT["), {K: "block", S: "body", Body: []*m.N{m.NText("default")}}, m.NText("]"), whoCall()}})
+	}
 	p.Tpls = append(p.Tpls, main)
 	return p
 }
